@@ -291,7 +291,12 @@ func differential(eng *Engine, prop, tier string, decls []*HarnessDecl, runs []*
 		sort.Strings(nf)
 		nn = append(append(nn, nf...), ne...)
 		if strings.Join(el, "\n") != strings.Join(nn, "\n") {
-			res.mismatches = append(res.mismatches, fmt.Sprintf("%s:\n  interpreter: %s\n  native:      %s", s.file, trunc(strings.Join(el, " | "), 600), trunc(strings.Join(nn, " | "), 600)))
+			keep := filepath.Join(verifDir, "replays", prop)
+			os.MkdirAll(keep, 0o755)
+			if b, err := os.ReadFile(filepath.Join(tmp, s.file)); err == nil {
+				os.WriteFile(filepath.Join(keep, "diff-"+s.file), b, 0o644)
+			}
+			res.mismatches = append(res.mismatches, fmt.Sprintf("%s (kept as %s):\n  interpreter: %s\n  native:      %s", s.file, filepath.Join(keep, "diff-"+s.file), trunc(strings.Join(el, " | "), 600), trunc(strings.Join(nn, " | "), 600)))
 			continue
 		}
 		res.validated++
